@@ -32,7 +32,7 @@ MUT = {
         "        item.target_size.map(|s| s.into()),\n        container_size.map(Some),\n        container_size.map(|s| s.into()),\n        SizingMode::ContentSize,")]),
     'T5_leaf_arm_forces_inherent_size': (TT, [(
         "                    compute_leaf_layout(inputs, style, |_, _| 0.0, measure_function)",
-        "                    compute_leaf_layout(LayoutInput { sizing_mode: SizingMode::InherentSize, ..inputs }, style, |_, _| 0.0, measure_function)")]),
+        "                    compute_leaf_layout(LayoutInput { sizing_mode: crate::tree::SizingMode::InherentSize, ..inputs }, style, |_, _| 0.0, measure_function)")]),
     'T6_root_query_parent_size_none_unless_block': (CM, [(
         "    let output = tree.perform_child_layout(\n        root,\n        known_dimensions,\n        available_space.into_options(),",
         "    let root_is_block = tree.get_core_container_style(root).is_block();\n"
@@ -40,7 +40,7 @@ MUT = {
         "        if root_is_block { available_space.into_options() } else { Size::NONE },")]),
     'T8_size_queries_are_never_cached': (CM, [(
         "    tree.cache_store(node, known_dimensions, available_space, run_mode, computed_size_and_baselines);",
-        "    if run_mode != RunMode::ComputeSize {\n        tree.cache_store(node, known_dimensions, available_space, run_mode, computed_size_and_baselines);\n    }")]),
+        "    if run_mode != crate::tree::RunMode::ComputeSize {\n        tree.cache_store(node, known_dimensions, available_space, run_mode, computed_size_and_baselines);\n    }")]),
     'T9_hidden_mode_applies_to_direct_children_only': (CM, [(
         "        tree.compute_child_layout(child_id, LayoutInput::HIDDEN);",
         "        tree.cache_clear(child_id);\n        tree.set_unrounded_layout(child_id, &Layout::with_order(0));")]),
